@@ -341,7 +341,7 @@ def evaluate_cases():
 def parts(tier, seed):
     nr, ne = (5000, 3000) if tier == 'quick' else (200000, 100000)
     return [
-        enum_part('resolve-window', weekday_window, run_resolve, exhaustive=True, hang_is_violation=True, hang_s=30),
-        hyp_part('resolve', resolve_cases, run_resolve, nr, min_shard=300, hang_is_violation=True, hang_s=30),
-        hyp_part('evaluate', evaluate_cases, run_evaluate, ne, min_shard=200, hang_is_violation=True, hang_s=30),
+        enum_part('resolve-window', weekday_window, run_resolve, exhaustive=True, hang_is_violation=True, hang_s=60),
+        hyp_part('resolve', resolve_cases, run_resolve, nr, min_shard=300, hang_is_violation=True, hang_s=60),
+        hyp_part('evaluate', evaluate_cases, run_evaluate, ne, min_shard=200, hang_is_violation=True, hang_s=60),
     ]
